@@ -28,13 +28,13 @@ func init() {
 			"durable image of the simulated disk) after any operation, including between the record write and the caller's use of the grant; engine resume without restart. " +
 			"Oracle (reference model = the set of grants ever given): per (round, index) at most one grant for prevote, precommit and certificate and at most two for next-index, over the whole history. " +
 			"Non-trivial = at least one restart or resume fired.",
-		Real:    []string{"consensus/ucon.VoteDB (NewVoteDB, UpdateContext, UpdateVoteData, ExistVoteData)", "secp256k1 signing of vote records", "rlp"},
-		Stub:    []string{"Voter (the caller): replaced by a generator that issues exactly the calls voter.go issues"},
+		Real:        []string{"consensus/ucon.VoteDB (NewVoteDB, UpdateContext, UpdateVoteData, ExistVoteData)", "secp256k1 signing of vote records", "rlp"},
+		Stub:        []string{"Voter (the caller): replaced by a generator that issues exactly the calls voter.go issues"},
 		QuickBudget: 15 * time.Second, ThoroughBudget: 4 * time.Minute,
-		MinRuns: 100,
-		Exec:    runVoteDB,
+		MinRuns:        100,
+		Exec:           runVoteDB,
 		ExpectedProbes: []string{"restart-in-same-round-at-higher-index", "resume-in-same-round-at-higher-index"},
-		PanicClass: kit.PanicInRepo("votedb-panic"),
+		PanicClass:     kit.PanicInRepo("votedb-panic"),
 	})
 }
 
